@@ -47,6 +47,20 @@ fn site_expr(kind: &str, x: &str) -> Expr {
             let t = Ty::tup(vec![Ty::U(8), Ty::opt(Ty::arr(Ty::U(8), 2))]);
             block(vec![let_(Pat::Tuple(vec![Pat::id("p"), Pat::Ignore]), t, call(CallName::Dbg, vec![Expr::Tuple(vec![var(x), Expr::Some(Box::new(Expr::Array(vec![var(x), dec(3)])))])]))], Some(var("p")))
         }
+        "dbg-either-same-sides" => {
+            // dbg! at sum types whose two sides have the same type: the side must come from the value, not from the type
+            let e = Ty::either(Ty::U(8), Ty::U(8));
+            block(
+                vec![
+                    let_(Pat::id("r_"), e.clone(), call(CallName::Dbg, vec![Expr::Right(Box::new(var(x)))])),
+                    let_(Pat::id("l_"), e.clone(), call(CallName::Dbg, vec![Expr::Left(Box::new(var(x)))])),
+                    let_(Pat::id("o_"), Ty::opt(e.clone()), call(CallName::Dbg, vec![Expr::Some(Box::new(Expr::Right(Box::new(var(x)))))])),
+                    let_(Pat::id("n_"), Ty::either(e.clone(), e.clone()), call(CallName::Dbg, vec![Expr::Right(Box::new(Expr::Left(Box::new(var(x)))))])),
+                    let_(Pat::id("u_"), Ty::U(8), call(CallName::UnwrapRight(Ty::U(8)), vec![var("r_")])),
+                ],
+                Some(var("u_")),
+            )
+        }
         k if k.starts_with("dbg-array-") || k.starts_with("dbg-list-") => {
             // dbg! at a type with more leaves than any integer: "dbg-array-<n>" = [u8; n], "dbg-list-<k>" = k elements
             // in List<u8, 2 * next_pow2(k)>; element 0 is the variable, the others distinct constants
@@ -324,7 +338,7 @@ pub fn run(rep: &Report) -> i32 {
     let quick = rep.is_quick();
     // (A) call-site family
     let mut kinds: Vec<&str> = KINDS.to_vec();
-    kinds.extend(["combo", "twins", "dbg-tuple"]);
+    kinds.extend(["combo", "twins", "dbg-tuple", "dbg-either-same-sides"]);
     let mut jobs: Vec<(String, Option<String>, String, usize, usize)> = vec![];
     let opt_sets = 3usize;
     for k in &kinds {
